@@ -49,6 +49,15 @@ def make_uod(exec_log: list, overlap: bool = True):
         b = b.with_command(name=name, exec_fn=make_exec(name, it),
                            init_fn=(lambda n: (lambda cmd: exec_log.append(("init", n))))(name),
                            finalize_fn=(lambda n: (lambda cmd: exec_log.append(("final", n))))(name))
+    # a command with a regex argument parser: `CmdNum: 5` runs one iteration, `CmdNum: lots` is rejected by the parser
+    from openpectus.lang.exec.regex import RegexNumber
+
+    def exec_num(cmd: UodCommand, **kvargs):
+        exec_log.append(("exec", "CmdNum", kvargs.get("number")))
+        cmd.set_complete()
+    b = b.with_command_regex_arguments(name="CmdNum", arg_parse_regex=RegexNumber(units=None), exec_fn=exec_num,
+                                       init_fn=lambda cmd: exec_log.append(("init", "CmdNum")),
+                                       finalize_fn=lambda cmd: exec_log.append(("final", "CmdNum")))
     if overlap:
         b = b.with_command_overlap(["CmdB", "CmdC"])
     return b.build()
